@@ -182,6 +182,24 @@ func (o *Obj) Get(i int) int {
 	return small(o.V*3+i*7+1) + o.w.salt(idx)
 }
 
+// Sel takes interface{} parameters (nil is a legal argument).
+func (o *Obj) Sel(a, b interface{}) int {
+	idx, _ := o.w.enter("Obj.Sel", o.V, a, b)
+	defer o.w.leave("Obj.Sel")
+	r := o.V
+	if a == nil {
+		r += 1
+	} else if i, ok := a.(int); ok {
+		r += 2 * i
+	}
+	if b == nil {
+		r += 4
+	} else if i, ok := b.(int); ok {
+		r += 3 * i
+	}
+	return small(r) + o.w.salt(idx)
+}
+
 func (o Obj) Twice(i int) int {
 	idx, _ := o.w.enter("Obj.Twice", o.V, i)
 	defer o.w.leave("Obj.Twice")
@@ -274,6 +292,45 @@ func (e Env) Va(xs ...interface{}) interface{} {
 	return small(sum*3) + e.w.salt(idx)
 }
 
+// An takes two interface{} parameters (nil is a legal argument) and is called
+// through the reflective path.
+func (e Env) An(a, b interface{}) int {
+	idx, _ := e.w.enter("An", a, b)
+	defer e.w.leave("An")
+	r := 0
+	if a == nil {
+		r += 1
+	} else if i, ok := a.(int); ok {
+		r += 3 * i
+	}
+	if b == nil {
+		r += 2
+	} else if i, ok := b.(int); ok {
+		r += 5 * i
+	}
+	return small(r) + e.w.salt(idx)
+}
+
+// OpA and OpB are candidates for operator overloading: both accept two *Obj.
+func (e Env) OpA(a, b *Obj) int {
+	_, _ = e.w.enter("OpA", a, b)
+	defer e.w.leave("OpA")
+	r := 0
+	if a != nil {
+		r += a.V
+	}
+	if b != nil {
+		r += 2 * b.V
+	}
+	return r
+}
+
+func (e Env) OpB(a, b interface{}) int {
+	_, _ = e.w.enter("OpB", a, b)
+	defer e.w.leave("OpB")
+	return 1000
+}
+
 // C64 takes and returns int64 (integer literals in its argument are retyped).
 func (e Env) C64(a int64) int64 {
 	_, _ = e.w.enter("C64", a)
@@ -351,12 +408,19 @@ func (a *AnyData) Value() interface{} {
 	return nil
 }
 
+// cloneInts copies xs into a fresh slice WITH spare capacity filled with a
+// sentinel: an append through a sub-slice of an environment-owned slice (or a
+// write past its length) then shows up in the environment's snapshot.
 func cloneInts(xs []int) []int {
 	if xs == nil {
 		return nil
 	}
-	out := make([]int, len(xs))
+	out := make([]int, len(xs), len(xs)+3)
 	copy(out, xs)
+	spare := out[len(xs):cap(out)]
+	for i := range spare {
+		spare[i] = -7777
+	}
 	return out
 }
 
@@ -415,7 +479,7 @@ func (e *Env) AsRep(rep string) interface{} {
 			"Xs": e.Xs, "Ys": e.Ys, "Ss": e.Ss, "Mp": e.Mp, "O": e.O, "On": e.On, "Any": e.Any,
 			"Fn": e.Fn, "Objs": e.Objs,
 			"F1": e.F1, "F2": e.F2, "G0": e.G0, "P1": e.P1, "S1": e.S1, "Mk": e.Mk, "Va": e.Va,
-			"C64": e.C64, "CI": e.CI, "CS": e.CS, "CB": e.CB,
+			"An": e.An, "OpA": e.OpA, "OpB": e.OpB, "C64": e.C64, "CI": e.CI, "CS": e.CS, "CB": e.CB,
 		}
 	}
 	panic("unknown env representation " + rep)
